@@ -45,6 +45,8 @@ def run_shard(desc, ctx):
 def gen(seed):
     rng = np.random.default_rng(seed)
     m = int(rng.integers(1, 9))                      # number of chunks
+    if rng.random() < 0.02:
+        m = int(rng.choice([130, 250, 260, 300]))      # long recordings: hundreds of chunks
     start = int(rng.choice([0, 0, 0, 3, 10]))
     widths = rng.integers(1, 12, size=m)
     bounds = np.r_[start, start + np.cumsum(widths)].astype(np.int64)
@@ -63,7 +65,7 @@ def gen(seed):
     k = int(rng.integers(1, 5))
     ids = np.array([1, 4, 5, 9])[:k]
     clusters = rng.choice(ids, size=n).astype(np.int64)
-    kept = int(rng.integers(1, m + 2))
+    kept = int(rng.integers(1, m + 2)) if m < 100 else int(rng.choice([20, 7, 100]))
     count = [None, 0, 1, 3, 100][int(rng.integers(0, 5))]
     req = [[], [int(ids[0])], ids.tolist(), ids[::-1].tolist() + [77], [77],
            ids.tolist() + [int(ids[0])], [int(ids[-1]), 77, int(ids[-1])]][int(rng.integers(0, 7))]      # also ids named twice
@@ -91,7 +93,8 @@ def _model_case(case, ctx):
     n_samples = clen * n_chunks - int(rng.integers(0, clen))
     opts = dict(nc=int(rng.integers(3, 7)), nt=int(rng.integers(2, 6)), ns=int(rng.integers(40, 400)), rate=rate,
                 raw=['int16', 'float32'][int(rng.integers(0, 2))], raw_parts=int(rng.choice([1, 1, 2, 3])),
-                n_samples=n_samples, ncdat_extra=0, features='none', clusters=['same', 'curated'][int(rng.integers(0, 2))])
+                n_samples=n_samples, ncdat_extra=0, features='none', clusters=['same', 'curated'][int(rng.integers(0, 2))],
+                spikeless=['none', 'middle', 'first', 'last'][int(rng.integers(0, 4))])         # template ids that no spike refers to
     spec = random_spec(rng, **opts)
     if case['seed'][2] % 3 == 1 and opts['raw_parts'] == 1:
         # the raw file ends before the last spikes (accepted at load with a warning): they lie in no chunk
@@ -112,6 +115,10 @@ def _model_case(case, ctx):
             grid = list(zip(bounds[:-1], bounds[1:]))
             stride = max(1, -(-len(grid) // 20))
             kept = grid[::stride]
+            if case['seed'][2] % 2 == 0 and k > 1:
+                # history: an earlier export with a smaller count on the same model; the later, larger one is judged
+                call(m.save_spikes_subset_waveforms, max_n_spikes_per_template=1, max_n_channels=2)
+                ctx.mon('model_subset_reexported')
             r = call(m.save_spikes_subset_waveforms, max_n_spikes_per_template=k, max_n_channels=2)
             if not r.ok:
                 ctx.violation('raised', desc, 'save_spikes_subset_waveforms raised %r' % r.exc, {'route': 'model'}, tb=r.tb)
@@ -168,8 +175,11 @@ def run_case(case, ctx):
     spc = {int(c): _spikes_in_clusters(clusters, [c]) for c in np.unique(clusters)}
     spc0 = {c: v.copy() for c, v in spc.items()}
     empty = np.array([], dtype=np.int64)
+    # (the number of kept chunks as a Python int or a NumPy integer of any width that holds it)
+    kept_arg = [int, np.int64, np.uint8, np.int16, np.int8, np.uint16][case['seed'][-1] % 6]
+    kept_arg = kept_arg(kept) if kept_arg is int or kept <= np.iinfo(kept_arg).max else int(kept)
     r = call(SpikeSelector, get_spikes_per_cluster=lambda c: spc.get(int(c), empty),
-             spike_times=t, chunk_bounds=bounds, n_chunks_kept=kept)
+             spike_times=t, chunk_bounds=bounds, n_chunks_kept=kept_arg)
     if not r.ok:
         ctx.count(1)
         ctx.violation('raised', desc, 'SpikeSelector() raised %r' % r.exc, feats, tb=r.tb)
